@@ -18,6 +18,7 @@ pub mod vident {
         open spec fn from_spec(e: AddrParseError) -> Self { arbitrary() }
     }
     impl From<AddrParseError> for crate::acme_common::error::Error { #[verifier::external_body] fn from(e: AddrParseError) -> Self { unimplemented!() } }
+    pub uninterp spec fn canonical_form(text: Seq<char>) -> Seq<char>;
     pub struct IpAddr { pub canon: Ghost<Seq<char>> }
     impl IpAddr {
         #[verifier::external_body]
@@ -25,6 +26,9 @@ pub mod vident {
             ensures match r { Ok(a) => ip_canon(s@) == Some(a.canon@), Err(_) => ip_canon(s@) is None } { unimplemented!() }
         #[verifier::external_body]
         pub fn to_string(&self) -> (r: String) ensures r@ == self.canon@ { unimplemented!() }
+        // IpAddr::to_canonical(): an IPv4-mapped IPv6 address becomes the IPv4 address (ANOTHER identifier), any other is itself
+        #[verifier::external_body]
+        pub fn to_canonical(&self) -> (r: IpAddr) ensures r.canon@ == canonical_form(self.canon@) { unimplemented!() }
         // classification predicates of std::net::IpAddr (results unspecified)
         #[verifier::external_body] pub fn is_unspecified(&self) -> bool { unimplemented!() }
         #[verifier::external_body] pub fn is_multicast(&self) -> bool { unimplemented!() }
